@@ -52,28 +52,28 @@ def check(ctx):
     funcs = [g] + [h for h, _ in helpers]
     for h, _ in helpers:
         ctx.analysed_func(h)
-    r05_1_2(ctx, funcs)
-    r05_3(ctx, g, helpers)
-    r05_4(ctx, v, g, helpers)
-    r05_5(ctx, funcs, g)
+    ctx.run(r05_1_2, funcs)
+    ctx.run(r05_3, g, helpers)
+    ctx.run(r05_4, v, g, helpers)
+    ctx.run(r05_5, funcs, g)
     # the node list then goes through the C04 machinery
-    c04.r04_123(ctx, v)
-    c04.r04_4(ctx, v)
-    r05_7(ctx, v)
-    r05_8(ctx, g)
+    ctx.run(c04.r04_123, v)
+    ctx.run(c04.r04_4, v)
+    ctx.run(r05_7, v)
+    ctx.run(r05_8, g)
     # regions and nodes are mutually exclusive and the region result replaces the node list
     ok = isinstance(v.regions_call.targets[0], ast.Name)
     ctx.check(ok, "R05.6", v.run.where(v.regions_call), "the nodes found under the regions become the node list of the --node machinery", key_of(v.run, f"regions-to-nodes:{norm(v.regions_call)}"))
     # mechanisms this property rests on (see shared.py): a change there is reported here as well
     from . import shared as _sh
 
-    _sh.path_tokenisers(ctx)
-    _sh.gaf_reader(ctx)
-    _sh.graph_loader(ctx)
-    _sh.contig_paths(ctx)
-    _sh.index_build(ctx)
-    _sh.cli_layer(ctx, "gaftools.cli.view")
-    _sh.cli_layer(ctx, "gaftools.cli.index")
+    ctx.run(_sh.path_tokenisers)
+    ctx.run(_sh.gaf_reader)
+    ctx.run(_sh.graph_loader)
+    ctx.run(_sh.contig_paths)
+    ctx.run(_sh.index_build)
+    ctx.run(_sh.cli_layer, "gaftools.cli.view")
+    ctx.run(_sh.cli_layer, "gaftools.cli.index")
 
 
 # ---------------------------------------------------------------------------------------------
